@@ -19,7 +19,10 @@ Inductive wsec :=
 (* a Returns / Yields / Receives section written for given option values: multi = *_multiple_items (false: one item, its
    continuation lines at the indentation of its first line), named = *_named_value (false: `type: description` or a bare
    description, no names) *)
-| WRet (multi named : bool) (k : kind) (header : str) (title : option str) (items : list witem).
+| WRet (multi named : bool) (k : kind) (header : str) (title : option str) (items : list witem)
+(* an Examples section: chunks of prose (false) and of console sessions (true, first line `>>> ...`), separated by one
+   blank line; trim = the value of trim_doctest_flags it was written for *)
+| WExamples (trim : bool) (header : str) (title : option str) (chunks : list (bool * list str)).
 
 Definition oapp (o : option str) : str := match o with Some s => s | None => [] end.
 
@@ -70,12 +73,21 @@ Definition item_lines_m (multi named : bool) (ind : nat) (k : kind) (it : witem)
 Definition header_line (header : str) (title : option str) : str :=
   header ++ colon :: match title with Some t => sp :: t | None => [] end.
 
+(* chunks one after the other, a blank line between two of them *)
+Fixpoint flatten_chunks (chunks : list (bool * list str)) : list str :=
+  match chunks with
+  | [] => []
+  | [(_, ls)] => ls
+  | (_, ls) :: r => ls ++ [] :: flatten_chunks r
+  end.
+
 Definition render_sec (ind : nat) (s : wsec) : list str :=
   match s with
   | WText ls => ls
   | WItems k h t its => header_line h t :: flat_map (item_lines ind k) its
   | WAdm h t ls => header_line h t :: map (indent_line ind) ls
   | WRet m n k h t its => header_line h t :: flat_map (item_lines_m m n ind k) its
+  | WExamples _ h t chunks => header_line h t :: map (indent_line ind) (flatten_chunks chunks)
   end.
 
 (* sections are separated by one blank line *)
@@ -113,12 +125,25 @@ Fixpoint expect_items (c : pctx) (k : kind) (multiple : bool) (index : nat) (its
   | it :: r => expect_item c k multiple index it :: expect_items c k multiple (S index) r
   end.
 
+(* a console chunk comes back with its doctest flags removed (and `<BLANKLINE>` markers emptied on all lines but the
+   first) when trim_doctest_flags is set *)
+Definition trim_console (trim : bool) (ls : list str) : list str :=
+  if trim then match ls with
+               | [] => []
+               | l0 :: r => trim_flags l0 :: map (fun l => trim_blankline (trim_flags l)) r
+               end
+  else ls.
+
+Definition expect_chunk (trim : bool) (ch : bool * list str) : bool * str :=
+  let '(b, ls) := ch in (b, join_nl (if b then trim_console trim ls else ls)).
+
 Definition expect_sec (c : pctx) (s : wsec) : gsec :=
   match s with
   | WText ls => GText (join_nl ls)
   | WItems k h t its => GItems k t (expect_items c k (negb (List.length its <=? 1)) 0 its)
   | WAdm h t ls => GAdm (dashify h) (match t with Some x => x | None => h end) (join_nl ls)
   | WRet _ _ k h t its => GItems k t (expect_items c k (negb (List.length its <=? 1)) 0 its)
+  | WExamples trim h t chunks => GExamples t (map (expect_chunk trim) chunks)
   end.
 
 Definition expect_google (c : pctx) (secs : list wsec) : list gsec := map (expect_sec c) secs.
@@ -206,6 +231,23 @@ Definition modes_of (o : gopts) (k : kind) : bool * bool :=
   | _ => (ret_multi o, ret_named o)
   end.
 
+(* a line of an Examples section: printable text (deeper indentation allowed) *)
+Definition wf_ex_line (l : str) : bool := all_printable l && negb (is_empty_line l).
+Definition wf_chunk (ch : bool * list str) : bool :=
+  let '(b, ls) := ch in
+  forallb wf_ex_line ls &&
+  match ls with
+  | [] => false
+  | l0 :: _ =>
+      if b then startswith s_prompt l0
+      else forallb (fun l => negb (startswith s_prompt l) && negb (startswith s_fence l)) ls
+  end.
+Fixpoint no_adjacent_prose (chunks : list (bool * list str)) : bool :=
+  match chunks with
+  | (a, _) :: (((b, _) :: _) as r) => (a || b) && no_adjacent_prose r
+  | _ => true
+  end.
+
 Definition wf_header (h : str) : bool :=
   all_printable h && match h with c :: _ => is_word c | [] => false end && forallb adm_char h.
 Definition wf_title (t : str) : bool := nonempty t && all_printable t && first_not_space t.
@@ -253,6 +295,13 @@ Definition wf_sec (o : gopts) (c : pctx) (s : wsec) : bool :=
       && forallb (wf_item_m m n k) its
       && rkindb k && (let '(m', n') := modes_of o k in Bool.eqb m m' && Bool.eqb n n')
       && (m || (List.length its <=? 1))
+  | WExamples trim h t chunks =>
+      wf_header h && opt_all wf_title t
+      && match g_section_kind (lower h) with Some KExamples => true | _ => false end
+      && Bool.eqb trim (trim_flags_opt o)
+      && match chunks with [] => false | _ => true end
+      && forallb wf_chunk chunks && no_adjacent_prose chunks
+      && first_not_space (hd [] (flatten_chunks chunks))
   end.
 
 Definition is_text (s : wsec) : bool := match s with WText _ => true | _ => false end.
